@@ -493,13 +493,21 @@ func emptyCall(c *emptyCell) (res error, bad error) {
 			sl := reflect.MakeSlice(reflect.SliceOf(m.Type()), 2, 2)
 			sl.Index(0).Set(first)
 			sl.Index(1).Set(m)
+			// (clauses come element by element; some carry no path at all - a string rule on a number -, so those of
+			// element [0] are counted on a call of their own and cut off the front)
+			one := reflect.MakeSlice(reflect.SliceOf(m.Type()), 1, 1)
+			one.Index(0).Set(first)
+			n0 := 0
+			if e0 := valid.Map(one.Interface(), rm); e0 != nil {
+				n0 = len(strings.Split(e0.Error(), valid.ErrEndFlag))
+			}
 			err := valid.Map(sl.Interface(), rm)
 			if err == nil {
 				return nil, nil
 			}
 			var keep []string
-			for _, cl := range strings.Split(err.Error(), valid.ErrEndFlag) {
-				if !strings.HasPrefix(cl, "\"[0]") {
+			for i, cl := range strings.Split(err.Error(), valid.ErrEndFlag) {
+				if i >= n0 && !strings.HasPrefix(cl, "\"[0]") {
 					keep = append(keep, cl)
 				}
 			}
